@@ -65,6 +65,11 @@ def reader_body(nr, publish):
         outs = []
         for j in range(nr):
             f = None
+            if publish == "read":
+                # the blocking read(): retries try_read until it succeeds (bounded by the loop bound; longer spins are cut)
+                v = it.call_fn("SyncCellReader", None, "read", [sh["reader"]])
+                outs.append(("Ok", v.fields[0], v.fields[1], None))
+                continue
             if publish:
                 f = it.call("Atomic::<usize>::load", [sh["flag"], ORD("Acquire")])
             r = it.call_fn("SyncCellReader", None, "try_read", [sh["reader"]])
@@ -81,6 +86,7 @@ def violation_fn(nw):
         W = [(z3.BitVec(f"w{k}s", 64), z3.BitVec(f"w{k}n", 32)) for k in range(nw + 1)]
         # written times pairwise differ in BOTH components, so that a torn pair is distinguishable from every written one
         for a in range(nw + 1):
+            ex.s.add(z3.ULT(W[a][1], 1_000_000_000))   # a MonotonicTime always has nanos < 10^9
             for b in range(a + 1, nw + 1):
                 ex.s.add(W[a][0] != W[b][0], W[a][1] != W[b][1])
         viols = []
@@ -148,6 +154,61 @@ mod verif_loom_replay {
 '''
 
 
+NATIVE_SRC = r'''
+// ---- appended by /verif: sequential native replay of a C15 witness (cfg(test) only) ----
+#[cfg(all(test, not(nexosim_loom)))]
+mod verif_c15_native {
+    use crate::time::{MonotonicTime, TearableAtomicTime};
+    use crate::util::sync_cell::SyncCell;
+
+    #[test]
+    fn verif_c15_roundtrip() {
+        // VERIF_TIMES = "secs:nanos,secs:nanos,...": the initial time and the written times of the witness
+        let spec = match std::env::var("VERIF_TIMES") { Ok(s) => s, Err(_) => return };
+        let times: Vec<MonotonicTime> = spec.split(',').filter_map(|p| {
+            let mut it = p.split(':');
+            let s: i64 = it.next()?.parse().ok()?;
+            let n: u32 = it.next()?.parse().ok()?;
+            MonotonicTime::new(s, n)
+        }).collect();
+        if times.is_empty() { return; }
+        let cell = SyncCell::new(TearableAtomicTime::new(times[0]));
+        let reader = cell.reader();
+        assert_eq!(cell.read(), times[0], "VERIF-ROUNDTRIP initial time read back wrong");
+        for t in &times[1..] {
+            cell.write(*t);
+            assert_eq!(cell.read(), *t, "VERIF-ROUNDTRIP the writer does not read back the time it wrote");
+            assert_eq!(reader.try_read().ok(), Some(*t), "VERIF-ROUNDTRIP a quiescent reader does not see the last written time");
+        }
+    }
+}
+'''
+
+
+def native_roundtrip(work, d, values, nw):
+    """a witness in which the writer (alone) reads back something else than it wrote is sequential: replay it natively
+    with the solver's values"""
+    times = []
+    for k in range(nw + 1):
+        s, n = values.get(f"w{k}s"), values.get(f"w{k}n")
+        if s is None or n is None:
+            return None
+        s = s - (1 << 64) if s >= (1 << 63) else s
+        if not (0 <= n < 1_000_000_000):
+            return None
+        times.append(f"{s}:{n}")
+    crate = work.sync_overlay("ovn")
+    with open(os.path.join(crate, "src/lib.rs"), "a") as f:
+        f.write(NATIVE_SRC)
+    rc, out = C.run(["cargo", "test", "--offline", "--lib", "--target-dir", work.sub("native-target"), "verif_c15_roundtrip", "--", "--nocapture"],
+                    cwd=crate, env=C.env_offline({"VERIF_TIMES": ",".join(times)}), timeout=1500, log_path=os.path.join(d, "native_roundtrip.log"))
+    if "VERIF-ROUNDTRIP" in out and "test result: FAILED" in out:
+        return True
+    if "test result: ok" in out:
+        return False
+    return None
+
+
 def loom_replay(work, d):
     """replay oracle: the same client program (and the repository's own loom tests of the seqlock) under loom"""
     crate = work.sync_overlay("ovl")
@@ -175,18 +236,21 @@ def run(tier, only=None):
             return C.EXIT_INCONCLUSIVE
         P = IN.Program(mir, src_root)
         ev.cov["engines"] += ["mirse (MIR symbolic executor)", "axc11 (axiomatic C11 release/acquire model in z3 %s)" % DP._z3ver()]
-        progs = [(1, 1, 1, False), (2, 1, 2, False), (2, 1, 2, True)] if tier == "quick" else \
-                [(1, 1, 1, False), (2, 1, 2, False), (2, 1, 2, True), (3, 1, 2, False), (2, 2, 1, False), (3, 1, 2, True), (2, 2, 2, True)]
+        progs = [(1, 1, 1, False), (2, 1, 2, False), (2, 1, 2, True), (2, 1, 1, "read")] if tier == "quick" else \
+                [(1, 1, 1, False), (2, 1, 2, False), (2, 1, 2, True), (2, 1, 1, "read"), (3, 1, 2, False), (2, 2, 1, False), (3, 1, 2, True),
+                 (2, 2, 2, True), (3, 1, 1, "read")]
         rc = C.EXIT_OK
         all_funcs = {}
         for (nw, nreaders, nr, publish) in progs:
             t0 = time.time()
             try:
-                wpaths, st1 = AX.collect_thread(P, make_models, 0, build_shared, writer_body(nw, publish))
+                wpaths, st1 = AX.collect_thread(P, make_models, 0, build_shared, writer_body(nw, publish is True))
                 threads = [wpaths]
                 stats = [st1]
                 for r in range(nreaders):
-                    rp, st = AX.collect_thread(P, make_models, 1 + r, build_shared, reader_body(nr, publish))
+                    rp, st = AX.collect_thread(P, make_models, 1 + r, build_shared, reader_body(nr, publish), loop_bound=4)
+                    if publish == "read":
+                        rp = [p for p in rp if p.get("aborted") != "LoopBound"]   # more than 3 failed attempts: outside the bound
                     threads.append(rp)
                     stats.append(st)
                 init_locs = wpaths[0]["locs"]
@@ -204,8 +268,9 @@ def run(tier, only=None):
             ev.cov["queries"] += info["queries"]
             ev.cov["solver_time_s"] += info["solver_s"]
             ev.cov["obligations"] += info["queries"]
-            desc = dict(program=f"writer: {nw} write(s){' + flag.store(k, Release)' if publish else ''}; {nreaders} reader(s): {nr} x "
-                                f"{'flag.load(Acquire); ' if publish else ''}try_read()", thread_paths=[len(t) for t in threads],
+            desc = dict(program=f"writer: {nw} write(s){' + flag.store(k, Release)' if publish is True else ''}; {nreaders} reader(s): {nr} x "
+                                f"{'flag.load(Acquire); ' if publish is True else ''}{'read() (<= 3 attempts)' if publish == 'read' else 'try_read()'}",
+                        thread_paths=[len(t) for t in threads],
                         path_combinations=info["combos"], queries=info["queries"], events=sum(len(p["events"]) for t in threads for p in t[:1]),
                         solver_s=round(info["solver_s"], 2), wall_s=round(time.time() - t0, 1), verdict=res)
             if res == "unsat":
@@ -226,7 +291,11 @@ def run(tier, only=None):
                     f"by running the same client program and the repository's own seqlock loom tests under loom (loom_replay.log).\n"
                     f"Re-run: ./check C15 --replay {d}\n")
                 kf = C.known_finding_for(PROP, label)
-                rep = loom_replay(work, d)
+                rep = None
+                if label.endswith("writer-reads-its-last-write") and info.get("values"):
+                    rep = native_roundtrip(work, d, info["values"], nw)
+                if not rep:
+                    rep = loom_replay(work, d)
                 if rep:
                     if kf:
                         C.log(f"KNOWN-FINDING: property={PROP} {kf.get('what', label)}")
@@ -240,11 +309,12 @@ def run(tier, only=None):
                     rc = max(rc, C.EXIT_INCONCLUSIVE) if rc != C.EXIT_VIOLATION else rc
                 break
         ev.cov["functions_encoded"] = sorted(k for k in all_funcs if not k.endswith("]"))
-        ev.cov["bounds"] = {"client_programs": [f"writer {nw} write(s), {nrd} reader(s) x {nr} try_read(){', publication flag (Release/Acquire)' if pb else ''}"
+        ev.cov["bounds"] = {"client_programs": [f"writer {nw} write(s), {nrd} reader(s) x {nr} " +
+                                                ("read() (<= 3 attempts)" if pb == "read" else f"try_read(){', publication flag (Release/Acquire)' if pb else ''}")
                                                 for (nw, nrd, nr, pb) in progs],
                             "values": "every written time is symbolic (secs i64, nanos u32), pairwise different in both components",
                             "memory_model": "C11 release/acquire fragment (rf, mo, release sequences, fences, hb, coherence, RMW atomicity, acyclic po U rf); no SeqCst"}
-        ev.cov["outside_claim"] = ["more writes / readers / reads than the listed client programs", "the retry loop of read() (a read is the first successful try_read)",
+        ev.cov["outside_claim"] = ["more writes / readers / reads than the listed client programs", "read() spinning for more than 3 attempts",
                                    "compiler/hardware behaviours outside the C11 model"]
         ev.assumptions += ["axiomatic model self-tested on litmus shapes (selftest/litmus.py)", "MIR interpreter models of Arc/CachePadded/Deref",
                            "each thread is executed in isolation; loads return unconstrained values that the rf/value axioms tie to writes"]
